@@ -3,6 +3,7 @@ CONSTANTS
   N = 6
   MaxK = 4
   MaxCalls = 3
+  Bug = "none"
 INVARIANT InvA
 INVARIANT InvB
 INVARIANT Composable
